@@ -381,7 +381,11 @@ def register_constant(module: str, symbol: str, compare_by_identity: bool):
   if compare_by_identity:
     _serialization_constants_by_id[id(value)] = serialization_constant
   else:
-    _serialization_constants_by_value[value] = serialization_constant
+    # Keyed by type as well: `Fraction(1, 2) == Decimal('0.5') == 0.5`, but only a
+    # value of the constant's own type may be written as a reference to it.
+    _serialization_constants_by_value[(type(value), value)] = (
+        serialization_constant
+    )
 
 
 # TODO(b/273321868): Remove this soon.
@@ -665,8 +669,10 @@ class Serialization:
       elif id(value) in _serialization_constants_by_id:
         output = _serialization_constants_by_id[id(value)].to_pyref()
       elif (isinstance(value, collections.abc.Hashable) and
-            value in _serialization_constants_by_value):
-        output = _serialization_constants_by_value[value].to_pyref()
+            (type(value), value) in _serialization_constants_by_value):
+        output = _serialization_constants_by_value[
+            (type(value), value)
+        ].to_pyref()
       else:
         msg = (f'Unserializable value {value} of type {type(value)}. Error '
                f'occurred at path {path_str(current_path)!r}.")')
